@@ -29,13 +29,21 @@ import (
 
 const verifPrivKey = "45f3ccdaff88ab1b3bb41472f09d5cde7cb20a6cbbc9197fddf64e2f3d67aaf2"
 
-var verifSignerAddr = func() common.Address {
-	k, err := crypto.HexToECDSA(verifPrivKey)
+// further keys for the "operator rotates the aggsender key and restarts the node" action of C10
+var verifRotatedKeys = []string{
+	"59c6995e998f97a5a0044966f0945389dc9e86dae88c7a8412f4603b6b78690d",
+	"5de4111afa1a4b94908f83103eb1f1706367c2e68ca870fc3fb9a804cdab365a",
+}
+
+func addrOfKey(hexKey string) common.Address {
+	k, err := crypto.HexToECDSA(hexKey)
 	if err != nil {
 		panic(err)
 	}
 	return crypto.PubkeyToAddress(k.PublicKey)
-}()
+}
+
+var verifSignerAddr = addrOfKey(verifPrivKey)
 
 type mCert struct {
 	ID       common.Hash
@@ -63,15 +71,16 @@ type mAgglayer struct {
 	crashAt     string         // "", "before-submit", "after-submit": panic with errCrash at that point of SendCertificate
 	calls       map[string]int
 	onSubmit    func(c *mCert)
-	headerPrev  bool // whether newly received certificates will carry prev LER in their header
-	expectFEP   bool // the node runs the aggchain-prover flow: FEP certificate type and FEP signing commitment
-	outOfDomain int  // imported exits skipped by the C09 oracle because their GER is above the finalized L1 info leaf
+	headerPrev  bool           // whether newly received certificates will carry prev LER in their header
+	expectFEP   bool           // the node runs the aggchain-prover flow: FEP certificate type and FEP signing commitment
+	outOfDomain int            // imported exits skipped by the C09 oracle because their GER is above the finalized L1 info leaf
+	signer      common.Address // address of the key the running node instance is configured with
 }
 
 type crashSignal struct{ at string }
 
 func newMAgglayer(w *jWorld) *mAgglayer {
-	return &mAgglayer{w: w, byID: map[common.Hash]*mCert{}, failNext: map[string]int{}, calls: map[string]int{}, headerPrev: true}
+	return &mAgglayer{w: w, byID: map[common.Hash]*mCert{}, failNext: map[string]int{}, calls: map[string]int{}, headerPrev: true, signer: verifSignerAddr}
 }
 
 func (m *mAgglayer) violate(prop, format string, a ...any) {
@@ -399,8 +408,10 @@ func importedVsClaim(ib *agglayertypes.ImportedBridgeExit, c bridgesync.Claim) s
 	if d := exitVsBridge(ib.BridgeExit, b); d != "" {
 		return d
 	}
-	if g := ref.GlobalIndex(ib.GlobalIndex.MainnetFlag, ib.GlobalIndex.RollupIndex, ib.GlobalIndex.LeafIndex); g.Cmp(c.GlobalIndex) != 0 {
-		return fmt.Sprintf("global index 0x%x vs 0x%x", g, c.GlobalIndex)
+	// the certificate's (flag, rollup, leaf) are the bit fields of the event's value (a mainnet index may carry stray
+	// rollup bits on chain; what the encodings do with them is not this comparison's business)
+	if f, r, l := ref.SplitGlobalIndex(c.GlobalIndex); f != ib.GlobalIndex.MainnetFlag || r != ib.GlobalIndex.RollupIndex || l != ib.GlobalIndex.LeafIndex {
+		return fmt.Sprintf("global index %+v vs the event's 0x%x", *ib.GlobalIndex, c.GlobalIndex)
 	}
 	return ""
 }
@@ -492,7 +503,7 @@ func (m *mAgglayer) checkSignature(mc *mCert, desc string) {
 		}
 		commit := refFEPCommitment(c)
 		pub, err := crypto.SigToPub(commit.Bytes(), normSig(pd.Signature))
-		if err != nil || crypto.PubkeyToAddress(*pub) != verifSignerAddr {
+		if err != nil || crypto.PubkeyToAddress(*pub) != m.signer {
 			m.violate("C10", "%s: signature does not recover to the configured signer over the FEP commitment of the certificate's content", desc)
 		}
 		return
@@ -504,7 +515,7 @@ func (m *mAgglayer) checkSignature(mc *mCert, desc string) {
 	}
 	commit := refPPCommitment(c)
 	pub, err := crypto.SigToPub(commit.Bytes(), normSig(sd.Signature))
-	if err != nil || crypto.PubkeyToAddress(*pub) != verifSignerAddr {
+	if err != nil || crypto.PubkeyToAddress(*pub) != m.signer {
 		m.violate("C10", "%s: signature does not recover to the configured signer over the commitment of the certificate's content", desc)
 	}
 }
@@ -591,6 +602,14 @@ type nodeCfg struct {
 	MaxCertSize      uint
 	MaxL2Block       uint64
 	RequireBridge    bool
+	Key              string // hex private key of the aggsender ("" = verifPrivKey)
+}
+
+func (nc nodeCfg) key() string {
+	if nc.Key == "" {
+		return verifPrivKey
+	}
+	return nc.Key
 }
 
 type asNode struct {
@@ -602,7 +621,7 @@ type asNode struct {
 func newASNode(w *jWorld, m agglayer.AgglayerClientInterface, dbPath string, nc nodeCfg) (*asNode, error) {
 	cfg := config.Config{
 		StoragePath:                     dbPath,
-		AggsenderPrivateKey:             signer.NewMockSignerConfig(verifPrivKey),
+		AggsenderPrivateKey:             signer.NewMockSignerConfig(nc.key()),
 		Mode:                            string(aggsendertypes.PessimisticProofMode),
 		DelayBetweenRetries:             cfgtypes.NewDuration(time.Millisecond),
 		MaxRetriesStoreCertificate:      3,
